@@ -18,6 +18,8 @@ func c01Progs() []func() *LazyProgram {
 		func() *LazyProgram { return progThreshold(100) },
 		func() *LazyProgram { return progTwoSites() },
 		func() *LazyProgram { return progSameMessage() },
+		func() *LazyProgram { return progNonFatalThenFatal() },
+		func() *LazyProgram { return progCustomMayDrawNothing() },
 		func() *LazyProgram { return progUniqueCtx("action", BPass) },
 		func() *LazyProgram { return progNonFatal(5) },
 		func() *LazyProgram { return progMachine() },
@@ -98,7 +100,11 @@ func c01Oracle(c *Ctx, prog *LazyProgram, log *RunLog, assign []KV, devs int, wh
 		viol("presented-case-does-not-falsify prog="+prog.Name+" found-as="+cause, fmt.Sprintf("the final replay ('Failed test output', draws %s) did not signal any failure", last.Draws))
 		return
 	}
-	if exp := ExpectedText(sig.Beh, drawsOfKey(sig.Key)); exp != "" && !strings.Contains(v.ErrText, exp) {
+	exp := ExpectedText(sig.Beh, drawsOfKey(sig.Key))
+	if sig.Ctx == "library" {
+		exp = drawsOfKey(sig.Key) // a failure raised by rapid itself on behalf of this invocation
+	}
+	if exp != "" && !strings.Contains(v.ErrText, exp) {
 		viol("message-names-another-failure prog="+prog.Name, fmt.Sprintf("the presented case fails with %s (%q expected in the message), the message says otherwise", sig.Beh, exp))
 	}
 	if len(last.DrawLog) > 0 {
